@@ -19,8 +19,12 @@ AnsOk(r)  == \E a \in (IF r.connected THEN Acceptable(r.segs, r.term) ELSE {Bad5
 FwdOk(r)  == r.connected => (r.seenok /\ FwdEq(r.seen, Forward(r.req, r.route, r.entry)))
 Ok(r)     == AnsOk(r) /\ ~r.late /\ FwdOk(r)
 \* deviations that predict exactly this observation (lateness is explained only by a predicted hang)
+Ideal(r)  == IF r.connected THEN Acceptable(r.segs, r.term) ELSE {Bad502}
+\* a deviation explains the record iff it predicts exactly this observation AND that prediction is itself not acceptable
 Explains(r) == IF FwdOk(r) /\ r.connected /\ (r.late => r.got.kind = "hang")
-               THEN { d \in RealDevs : AnsEq(r.got, Predict({d}, r.segs, r.term)) } ELSE {}
+               THEN { d \in RealDevs : LET p == Predict({d}, r.segs, r.term) IN
+                                         AnsEq(r.got, p) /\ ~\E a \in Ideal(r) : AnsEq(p, a) }
+               ELSE {}
 SetToSeq(X) == LET RECURSIVE F(_) F(Y) == IF Y = {} THEN <<>> ELSE LET x == CHOOSE x \in Y : TRUE IN <<x>> \o F(Y \ {x}) IN F(X)
 
 VARIABLES l, bad, nontrivial
@@ -33,8 +37,8 @@ Next == /\ l <= Len(Rec)
         /\ nontrivial' = nontrivial + (IF Rec[l].connected /\ Acceptable(Rec[l].segs, Rec[l].term) # {Bad502} THEN 1 ELSE 0)
 Spec == Init /\ [][Next]_<<l, bad, nontrivial>>
 
-\* checked at the last state: every record consumed; the failing ones are printed (violates when any)
+\* evaluated at the last state: every record consumed; the verdict (the list of failing records) is printed for the
+\* driver.  The invariant itself stays TRUE so that TLC does not print a behaviour of Len(Rec) states.
 AllAgree == (l = Len(Rec) + 1) =>
-              /\ PrintT(ToJson([checked |-> Len(Rec), nontrivial |-> nontrivial, rejected |-> bad]))
-              /\ bad = <<>>
+              PrintT(ToJson([checked |-> Len(Rec), nontrivial |-> nontrivial, rejected |-> bad]))
 =============================================================================
